@@ -293,6 +293,13 @@ where
                 }
             }
             RxPacket::Pubrec(pubrec) => {
+                // A PUBREC with reason >= 0x80 ends the QoS 2 exchange, no PUBCOMP will follow.
+                if pubrec.reason as u8 >= 0x80
+                    && connection.send_quota != connection.remote_receive_maximum
+                {
+                    connection.send_quota += 1;
+                }
+
                 let rx_packet = RxPacket::Pubrec(pubrec);
                 let action_id = utils::rx_action_id(&rx_packet);
 
